@@ -369,7 +369,7 @@ func genScript(t *rapid.T) Script {
 	case "MountBlob":
 		s.From = rapid.SampledFrom(names).Draw(t, "from")
 	case "PushBlobChunkedResume":
-		s.ID = rapid.SampledFrom([]string{"", "", "upload-1", "x"}).Draw(t, "id")
+		s.ID = rapid.SampledFrom([]string{"", "", "upload-1", "x", "/v2/a/blobs/uploads/x", "/v2/b/blobs/uploads/x", "/v2/a/b/blobs/uploads/x", "https://r.test/v2/c/blobs/uploads/y?z=1"}).Draw(t, "id")
 		s.Offset = rapid.SampledFrom([]int64{-1, 0, 0, 1, 100}).Draw(t, "offset")
 	case "Repositories", "Tags":
 		s.Start = rapid.SampledFrom([]string{"", "a", "b", "zz"}).Draw(t, "start")
@@ -384,7 +384,7 @@ func genScript(t *rapid.T) Script {
 var prop = &vt.Prop[Script]{
 	ID:   "C12",
 	Name: "FilterWrappersRandomPolicies",
-	Rule: "wrapper in {AccessChecker, Select}; policy = random table (repository name, access kind) -> allow | one of three distinct errors, with a default row (pure function; Select's depends on the name only); method = each of the 18 Interface methods with repositories from {a, b, a/b, c, the empty name, '../a'} (the policy is asked about whatever name the caller passes; mount: source and target, incl. the same repository), resume ids {empty, non-empty} x offsets {-1,0,1,100}, listing start points, backend repository listings incl. a repository named '*'; recording backend that accepts everything; oracle = policy rejects => zero backend calls, the policy's own error (Select: name-unknown for read/list/delete, denied for write), no data; policy allows => exactly one backend call with the caller's context and arguments, the backend's own reader/writer/results (writers are used: Write+Commit must land in the backend's session); repository listings = backend's list filtered by the read verdict; non-trivial = some involved repository is rejected, or a listing is filtered; distinct = (wrapper, method, policy, arguments)",
+	Rule: "wrapper in {AccessChecker, Select}; policy = random table (repository name, access kind) -> allow | one of three distinct errors, with a default row (pure function; Select's depends on the name only); method = each of the 18 Interface methods with repositories from {a, b, a/b, c, the empty name, '../a'} (the policy is asked about whatever name the caller passes; mount: source and target, incl. the same repository), resume ids {empty, opaque, shaped like the upload location of each repository} x offsets {-1,0,1,100}, listing start points, backend repository listings incl. a repository named '*'; recording backend that accepts everything; oracle = policy rejects => zero backend calls, the policy's own error (Select: name-unknown for read/list/delete, denied for write), no data; policy allows => exactly one backend call with the caller's context and arguments, the backend's own reader/writer/results (writers are used: Write+Commit must land in the backend's session); repository listings = backend's list filtered by the read verdict; non-trivial = some involved repository is rejected, or a listing is filtered; distinct = (wrapper, method, policy, arguments)",
 	Gen:  genScript,
 	Run:  run,
 }
